@@ -52,6 +52,27 @@ def run(ctx):
                         ctx.ob('C18.1', f, 'no-second-creator:' + s.name, False, '%s writes the lock path outside try_acquire' % s.callee, line=s.line)
     ctx.ob('C18.1', 'workspace', 'no-second-creator', n == 0, '%d other site(s) create or overwrite lock.json' % n)
 
+    # ---------------------------------------------------------------- C18.7
+    ctx.rule('C18.7', 'only the authority module touches the authority files: every rename / remove / write whose path comes from authority_lock_path or authority_meta_path sits inside ripd::local_authority (try_acquire, write_meta, the two guarded cleanups C18.2 audits, release). A client or any other module that deletes or rewrites lock.json / meta.json does so without the liveness and identity checks, and can take the files of a live authority.')
+    n7in = 0
+    for p, f in sorted(P.fns.items()):
+        if f.crate not in ('ripd', 'rip') or not f.calls(r'authority_(lock|meta)_path$'):
+            continue
+        for s in f.sites():
+            if not (site_effects(s) & {'FsWrite'}):
+                continue
+            hit = sorted({x[1].rsplit('::', 1)[-1] for a in s.args[:2] for x in sources(f, a) if x[0] == 'call' and re.search(r'authority_(lock|meta)_path$', x[1])})
+            if not hit:
+                continue
+            inside = p.startswith(LA)
+            if inside:
+                n7in += 1
+                ctx.touch(f)
+            else:
+                ctx.ob('C18.7', f, 'authority-files-owned:' + s.name, False, '%s on %s OUTSIDE ripd::local_authority: the file of a (possibly live) authority is changed without the pid-liveness / identity checks of the guarded cleanup' % (s.callee.rsplit('::', 1)[-1], '/'.join(hit)), line=s.line)
+    ctx.floor('C18.7', 'mutations of lock.json / meta.json inside ripd::local_authority', n7in, 6)
+    ctx.ob('C18.7', 'workspace', 'authority-files-owned', True, '%d mutation site(s) of the authority files, all inside ripd::local_authority' % n7in)
+
     # ---------------------------------------------------------------- C18.2
     pl = P.adts.get(LA + 'PidLiveness')
     if pl is None:
